@@ -8,6 +8,8 @@ def call_by_name(fn, env: dict):
     """Call fn passing the env entries that match its parameter names."""
     sig = inspect.signature(fn)
     kw = {}
+    if any(p.kind == p.VAR_KEYWORD for p in sig.parameters.values()):
+        return fn(**env)
     for name, p in sig.parameters.items():
         if name in env:
             kw[name] = env[name]
